@@ -169,7 +169,11 @@ def _fake_get(url, headers=None, timeout=None, **kw):
     if "If-None-Match" in headers:
         srv.conditional += 1
     if srv.fail_next:
-        srv.fail_next = False
+        how, srv.fail_next = srv.fail_next, False
+        if how == "ConnectionError":
+            raise ConnectionError("connection refused")        # the transport itself fails: no response object at all
+        if how == "Timeout":
+            raise TimeoutError("read timed out")
         return _Resp(500, {}, "server error")
     if srv.blob is None:
         return _Resp(404, {}, "not found")
@@ -479,7 +483,7 @@ class Env:
             elif k == "delete":
                 self.server.blob = None
             elif k == "fault_load":
-                self.server.fail_next = True
+                self.server.fail_next = op.get("cls") or True
         elif t == "s3":
             if k == "write":
                 self.client.obj = op
@@ -911,6 +915,8 @@ def kind_fault2(kindname: str) -> dict | None:
         return {"e": "fault", "on": "load", "cls": "RuntimeError"}
     if t == "file":
         return dict(W, same_sig=True)
+    if t == "http":
+        return {"e": "fault", "on": "load", "cls": "ConnectionError"}     # transport-level: requests.get itself raises
     return None
 
 
@@ -1028,7 +1034,7 @@ def random_cases(r: random.Random, n: int, maxlen: int):
                 elif t == "file":
                     hist.append({"e": "touch"})
                 elif t == "http":
-                    hist.append({"e": "fault", "on": "load", "cls": "HTTPError"})
+                    hist.append({"e": "fault", "on": "load", "cls": r.choice(["HTTPError", "HTTPError", "ConnectionError", "Timeout"])})
                 else:
                     y = r.random()
                     if y < 0.4:
